@@ -11,7 +11,7 @@ from .interp import Interp, UFPFX, lit_bits, fp_value
 from . import axioms as axioms_mod
 
 VERIF = os.path.dirname(os.path.dirname(os.path.abspath(__file__)))
-HARNESS = os.path.join(VERIF, 'harness')
+HARNESS = os.environ.get('KSMT_HARNESS') or os.path.join(VERIF, 'harness')   # KSMT_HARNESS: development aid (try harness sources from a scratch copy)
 BUILD = os.path.join(VERIF, 'build')
 # Development aid (seeded-change testing in parallel): KSMT_REPO=<copy of the repository> runs the same
 # harness sources against that copy, with a private build directory. Registered checks never set it.
